@@ -53,6 +53,13 @@ def generate(prop, rng, index, tier):
             for s in rng.sample(["sub", "io", "extra"], rng.randint(1, 2)):
                 spec["subs"].append({"name": s, "commands": _cmds(rng, 1)})
         universe.append(spec)
+    # a library whose name differs from a dotted sub-library name only in the dot (lib_sub / libxsub next to lib.sub)
+    for spec in list(universe):
+        if spec["package"] and spec["subs"] and rng.random() < 0.5:
+            sub = rng.choice(spec["subs"])["name"]
+            look = spec["name"] + rng.choice(["_", "x", "0"]) + sub
+            if all(u["name"] != look for u in universe):
+                universe.append({"name": look, "package": False, "commands": _cmds(rng, rng.randint(1, 2)), "subs": []})
     mods = []
     for spec in universe:
         mods.append(spec["name"])
@@ -68,7 +75,7 @@ def generate(prop, rng, index, tier):
             ops.append(["DEFINE", rng.choice(mods), rng.choice(["Late", "Later"]), rng.choice(CMD_NAMES[:7] + ("Zed",))])
         elif r < 0.72:
             libs = rng.sample(tops, rng.randint(1, min(3, len(tops))))
-            if rng.random() < 0.15 and any(s["package"] for s in universe):
+            if rng.random() < 0.3 and any(s["package"] for s in universe):
                 pk = rng.choice([s for s in universe if s["package"]])
                 libs = [pk["name"] + "." + rng.choice(pk["subs"])["name"]]
             ops.append(["PROGRAM", libs])
